@@ -184,13 +184,21 @@ def Cmd.stampGE (cmd : Cmd) (ta : Nat) : Prop :=
   | some t => ta ≤ t
   | none => True
 
-theorem held_step (cfg : Cfg) (s : Table) (l a ta now : Nat) (cmd : Cmd)
-    (h : s l = some (a, ta)) (hnow : now < ta + cfg.U) (hs : cmd.stampLE now)
+theorem Cmd.stampLE_mono {cmd : Cmd} {n m : Nat} (h : cmd.stampLE n) (hnm : n ≤ m) : cmd.stampLE m := by
+  unfold Cmd.stampLE at *
+  split
+  · next t ht => rw [ht] at h; exact Nat.le_trans h hnm
+  · trivial
+
+/-- the general form: a held lock `(a, ta)` survives every command stamped not later than `ta + U` (i.e. not
+an expiry) other than `a`'s own release -- in particular every command with an arbitrarily *old* stamp. -/
+theorem kept_step (cfg : Cfg) (s : Table) (l a ta : Nat) (cmd : Cmd)
+    (h : s l = some (a, ta)) (hs : cmd.stampLE (ta + cfg.U))
     (hr : cmd ≠ .release l a) (hm : cfg.mono = true ∨ cmd.stampGE ta) :
     ∃ ta', ta ≤ ta' ∧ (ta' = ta ∨ cmd.stamp? = some ta') ∧ apply cfg s cmd l = some (a, ta') := by
   cases cmd with
   | acquire l' c t =>
-    have hs' : t ≤ now := hs
+    have hs' : t ≤ ta + cfg.U := hs
     have hm' : cfg.mono = true ∨ ta ≤ t := hm
     by_cases hl : l' = l
     · subst hl
@@ -208,7 +216,7 @@ theorem held_step (cfg : Cfg) (s : Table) (l a ta now : Nat) (cmd : Cmd)
       have : l ≠ l' := fun e => hl e.symm
       simp [apply, applyRes, acquire_get_ne cfg s c t this, h]
   | prolongate c t =>
-    have hs' : t ≤ now := hs
+    have hs' : t ≤ ta + cfg.U := hs
     have hm' : cfg.mono = true ∨ ta ≤ t := hm
     have he : ¬ ta + cfg.U < t := by omega
     by_cases hc : a = c
@@ -234,6 +242,30 @@ theorem held_step (cfg : Cfg) (s : Table) (l a ta now : Nat) (cmd : Cmd)
       simp [apply, applyRes, release_non_holder s l' c this, h]
     · have : l ≠ l' := fun e => hl e.symm
       simp [apply, applyRes, release_get_ne s c this, h]
+
+theorem held_step (cfg : Cfg) (s : Table) (l a ta now : Nat) (cmd : Cmd)
+    (h : s l = some (a, ta)) (hnow : now < ta + cfg.U) (hs : cmd.stampLE now)
+    (hr : cmd ≠ .release l a) (hm : cfg.mono = true ∨ cmd.stampGE ta) :
+    ∃ ta', ta ≤ ta' ∧ (ta' = ta ∨ cmd.stamp? = some ta') ∧ apply cfg s cmd l = some (a, ta') :=
+  kept_step cfg s l a ta cmd h (Cmd.stampLE_mono hs (Nat.le_of_lt hnow)) hr hm
+
+/-- lifting of `kept_step`, repaired code: as long as no command is stamped later than the *initial* lock
+time + U and the holder does not release, he stays the holder (the lock time only grows). -/
+theorem kept_run (cfg : Cfg) (hm : cfg.mono = true) (cmds : List Cmd) :
+    ∀ (s : Table) (l a ta bound : Nat), s l = some (a, ta) → bound ≤ ta + cfg.U →
+      ClocksAgree bound cmds → NotReleasedBy l a cmds →
+      ∃ ta', ta ≤ ta' ∧ run cfg s cmds l = some (a, ta') := by
+  induction cmds with
+  | nil => intro s l a ta bound h _ _ _; exact ⟨ta, Nat.le_refl _, h⟩
+  | cons cmd rest ih =>
+    intro s l a ta bound h hb hs hr
+    have hs1 : cmd.stampLE (ta + cfg.U) := Cmd.stampLE_mono (hs cmd (List.mem_cons_self ..)) hb
+    have hr1 : cmd ≠ .release l a := fun e => hr (by rw [e]; exact List.mem_cons_self ..)
+    obtain ⟨t1, hle, _, h1⟩ := kept_step cfg s l a ta cmd h hs1 hr1 (Or.inl hm)
+    have hs2 : ClocksAgree bound rest := fun c hc => hs c (List.mem_cons_of_mem _ hc)
+    have hr2 : NotReleasedBy l a rest := fun hc => hr (List.mem_cons_of_mem _ hc)
+    obtain ⟨t2, hle2, h2⟩ := ih (apply cfg s cmd) l a t1 bound h1 (by omega) hs2 hr2
+    exact ⟨t2, by omega, by rw [run_cons]; exact h2⟩
 
 /-- lifting of `held_step` over a list of commands, repaired code: no hypothesis on the order of stamps. -/
 theorem held_run (cfg : Cfg) (hm : cfg.mono = true) (cmds : List Cmd) :
